@@ -2,6 +2,8 @@ package c09
 
 import (
 	"bytes"
+	"crypto/sha256"
+	"encoding/hex"
 	"errors"
 	"fmt"
 	"io"
@@ -487,12 +489,15 @@ func runCase(c Case, o *kit.Obs) *kit.Failure {
 	}
 	var prev *mrow
 	keys := map[string]bool{}
+	order := sha256.New() // the output order of the tags: compared between the assembly and the portable build
+	defer func() { o.Digest(hex.EncodeToString(order.Sum(nil)[:8])) }()
 	for i, row := range got {
 		s, err := pq.Streams(cols, []parquet.Row{row})
 		if err != nil {
 			return kit.Failf("c09/malformed-row"+feat, "%v", err)
 		}
 		id := s[0][0].I
+		fmt.Fprintf(order, "%d,", id)
 		src, pos := int(id/10000000), int(id%10000000)
 		if src < 0 || src >= len(inputs) || pos >= len(inputs[src]) || seen[src][pos] {
 			return kit.Failf("c09/not-the-union"+feat, "output row %d has tag (%d,%d): unknown or duplicated", i, src, pos)
